@@ -46,6 +46,8 @@ CFG_JUDGE = "INIT Init\nNEXT Next\nCHECK_DEADLOCK FALSE\nINVARIANT Emit\n"
 BIG_CAP = 80          # "no cap" configuration: exact runs that do not cycle need far fewer iterations (invariant Terminates)
 TOL = 1e-9            # DESIGN 5.1: direct linear-algebra outputs
 NEAR_RD = 2500        # reward denominator of the near-tie family: rewards differ by 1/2500 = 4e-4 or 2/2500 = 8e-4
+LARGE_RM = 900        # reward multiplier of the large-magnitude family: costs of -900, -1800, ... per step
+SWEEPS = [(1, 2), (3, 4), (1, 1)]     # discounts a call-history case switches to (mdp.discount_rate changed in place)
 ISCLOSE_ATOL, ISCLOSE_RTOL = 1e-8, 1e-5     # np.isclose defaults = the tie window of msdm's improvement steps
 
 REPS = [
@@ -128,9 +130,48 @@ def near_tie_case(rng):
     return m, {"s": s, "lo": lo, "hi": hi, "kind": kind, "d": d}
 
 
+def lacking_action_case(rng):
+    """Large-magnitude sub-family built around one state that lacks an action: state 0 (initial, no self-loop) has an
+    unavailable action and its available ones lead into {1, 2}, a closed set in which every action is available and every
+    step costs 900 .. 2700; optionally an absorbing state reachable from state 0 only.  Every available choice at state 0
+    is therefore worth less than about -900 per step (gain) resp. -900/(1-discount): nothing may make the unavailable
+    action look better than that."""
+    n_abs = rng.choice([0, 0, 1])
+    N, K = 3 + n_abs, rng.choice([2, 3])
+    GN, GD = rng.choice([(1, 1), (1, 1), (1, 1), (1, 2), (3, 4)])
+    avail = [[1] * K for _ in range(N)]
+    while all(avail[0]) or not any(avail[0]):
+        avail[0] = [rng.choice([0, 1]) for _ in range(K)]
+    P = [[[0] * N for _ in range(K)] for _ in range(N)]
+    R = [[[0] * N for _ in range(K)] for _ in range(N)]
+    for a in range(K):
+        if avail[0][a]:
+            row = rng.choice([(2, 0, 0), (0, 2, 0), (1, 1, 0)] + ([(1, 0, 1), (0, 1, 1)] if n_abs and rng.random() < 0.3 else []))
+            P[0][a][1], P[0][a][2] = row[0], row[1]
+            if n_abs:
+                P[0][a][3] = row[2]
+        for st in (1, 2):
+            x = rng.choice([0, 1, 2])
+            P[st][a][1], P[st][a][2] = x, 2 - x
+        for st in range(3):
+            R[st][a] = [rng.choice([-3, -2, -1, -1]) for _ in range(N)]
+        if n_abs:
+            P[3][a][3] = 2
+    m = {"N": N, "K": K, "PD": 2, "GN": GN, "GD": GD, "ID": 2, "abs": [0, 0, 0] + [1] * n_abs,
+         "avail": avail, "P": P, "R": R, "p0": [2] + [0] * (N - 1), "RM": LARGE_RM, "CAP": BIG_CAP}
+    return m
+
+
 def make_cases(rng, n, tier):
     cases = []
     while len(cases) < n:
+        if len(cases) % 16 == 9:                # every 16th case: large costs around a state that lacks an action
+            m = lacking_action_case(rng)
+            rep = dict(REPS[rng.randrange(len(REPS))])
+            if not rep["explicit_list"] and not gen.ghost_closed(m):
+                rep["explicit_list"] = True
+            cases.append({"m": m, "rep": rep, "n_inits": 1, "all_rules": False})
+            continue
         if len(cases) % 4 == 3:                 # every 4th case: near-tie reward family
             m, tie = near_tie_case(rng)
             if not gen.magnitude_ok(m, QD=3):
@@ -141,6 +182,10 @@ def make_cases(rng, n, tier):
             cases.append({"m": m, "rep": rep, "n_inits": 1, "all_rules": False, "tie": tie})
             continue
         f = FAMS[len(cases) % len(FAMS)]
+        large = len(cases) % 8 == 1             # every 8th case: large-magnitude rewards (multiplier RM = 900)
+        if large:                               # undiscounted (PD 2 / 4) twice as often as discounted
+            f = dict(FAMS[rng.choice([0, 0, 2, 4, 1, 3, 7])],
+                     rewards=rng.choice([(-3, -2, -1, -1), (-2, -1, -1), (-2, -1, 0, 1, 2)]))
         undisc = f["GN"] == f["GD"]
         n_na = rng.choice([0, 1, 2, 2, 3, 3, 3, 3])
         n_abs = rng.choice([0, 0, 0, 1, 1, 2]) if undisc else rng.choice([0, 0, 1, 1, 2])
@@ -151,12 +196,24 @@ def make_cases(rng, n, tier):
                          rewards=f["rewards"], ID=rng.choice([2, 4]), init_on_abs=0.2)
         if not gen.magnitude_ok(m, QD=3):
             continue
-        m["CAP"] = BIG_CAP if rng.random() < 0.7 else rng.randint(1, 4)
+        if large:
+            # state-dependent action sets are the point: some non-absorbing state must lack an action
+            if all(all(m["avail"][s]) for s in range(m["N"]) if not m["abs"][s]):
+                continue
+            m["RM"] = LARGE_RM
+        m["CAP"] = BIG_CAP if (large or rng.random() < 0.7) else rng.randint(1, 4)
         rep = dict(REPS[rng.randrange(len(REPS))])
         if not rep["explicit_list"] and not gen.ghost_closed(m):
             rep["explicit_list"] = True      # ghost successors outside the inferred list: C06's business
         all_rules = tier == "thorough" and len(cases) % 4 == 0
-        cases.append({"m": m, "rep": rep, "n_inits": 2, "all_rules": all_rules})
+        case = {"m": m, "rep": rep, "n_inits": 2, "all_rules": all_rules}
+        # call history: the same planner object plans the same MDP object again after mdp.discount_rate was
+        # changed in place (a discount sweep); the second result is judged like a fresh one
+        if rng.random() < 0.3:
+            alts = [g for g in SWEEPS if g != (m["GN"], m["GD"]) and gen.magnitude_ok(dict(m, GN=g[0], GD=g[1]), QD=3)]
+            if alts:
+                case["sweep"] = list(rng.choice(alts))
+        cases.append(case)
     return cases
 
 
@@ -181,9 +238,9 @@ def prepare(case, tamper_build=None):
     m, rep = case["m"], case["rep"]
     rng = random.Random(digest(case))
     mb = tamper_build(m) if tamper_build else m
-    RD = m.get("RD", 1)
-    if RD != 1:                                   # msdm gets the real rewards R / RD, TLC the integer numerators
-        mb = dict(mb, R=[[[x / RD for x in row] for row in act] for act in mb["R"]])
+    RD, RM = m.get("RD", 1), m.get("RM", 1)
+    if RD != 1 or RM != 1:                        # msdm gets the real rewards R * RM / RD, TLC the integer numerators
+        mb = dict(mb, R=[[[x * RM / RD for x in row] for row in act] for act in mb["R"]])
     b = build.build_mdp(mb, rng=rng, **rep)
     sl, al = list(b.mdp.state_list), list(b.mdp.action_list)
     si = [b.sidx(x) for x in sl]
@@ -206,7 +263,7 @@ def prepare(case, tamper_build=None):
                     R[i][j][pos[t]] = m["R"][s][a][t]
     mp = {"N": N, "K": K, "PD": m["PD"], "GN": m["GN"], "GD": m["GD"], "ID": m["ID"],
           "abs": [m["abs"][s] for s in si], "avail": avail, "P": P, "R": R,
-          "p0": [m["p0"][s] for s in si], "CAP": m["CAP"], "RD": RD}
+          "p0": [m["p0"][s] for s in si], "CAP": m["CAP"], "RD": RD, "RM": RM}
     if sum(mp["p0"]) != m["ID"]:
         raise TLCFailure("generator: initial support outside the state list")
     # initial decision rules (1-based, list order): random available actions, at absorbing states too
@@ -335,6 +392,9 @@ def lp_gain(mp):
     from scipy.optimize import linprog
     N, K, PD = mp["N"], mp["K"], mp["PD"]
     ab = {s for s in range(N) if mp["abs"][s]}
+    # rewards are normalised to magnitude <= 1 so that the box on the relative values (needed to keep the LP
+    # bounded) can never bind: |h| is at most the expected number of steps before a class is entered
+    scale = float(max([1] + [abs(x) for act in mp["R"] for row in act for x in row]))
     A, b = [], []
     for s in range(N):
         if s in ab:
@@ -343,7 +403,7 @@ def lp_gain(mp):
             if not mp["avail"][s][a]:
                 continue
             p = [mp["P"][s][a][t] / PD for t in range(N)]
-            rs = sum(p[t] * mp["R"][s][a][t] for t in range(N))
+            rs = sum(p[t] * mp["R"][s][a][t] for t in range(N)) / scale
             row = [0.0] * (2 * N)                 # sum_t p g(t) - g(s) <= 0
             for t in range(N):
                 row[t] += p[t]
@@ -362,16 +422,16 @@ def lp_gain(mp):
     res = linprog([1.0] * N + [0.0] * N, A_ub=np.array(A), b_ub=np.array(b), bounds=bounds, method="highs")
     if res.status != 0:
         return None
-    return list(res.x[:N])
+    return [float(x) * scale for x in res.x[:N]]
 
 
 # --------------------------------------------------------------------------------------------
 # running the real code
 # --------------------------------------------------------------------------------------------
-def _arrays(mdp):
+def _arrays(mdp, discount):
     return dict(transition_matrix=mdp.transition_matrix,
                 absorbing_state_vec=mdp.absorbing_state_vec.astype(bool),
-                discount_rate=mdp.discount_rate,
+                discount_rate=discount,
                 reward_matrix=mdp.reward_matrix,
                 action_matrix=mdp.action_matrix.astype(bool))
 
@@ -380,15 +440,33 @@ def _fl(x):
     return [float(v) for v in x]
 
 
-def run_plan(b, cap):
+def gamma_of(mp):
+    return float(F(mp["GN"], mp["GD"]))
+
+
+def get_planner(planners, cap):
+    """One planner object per max_iterations, reused across all MDP objects of a chunk (planners are stateless)."""
     from msdm.algorithms.multichainpolicyiteration import MultichainPolicyIteration
+    if planners is None:
+        return MultichainPolicyIteration(max_iterations=cap)
+    if cap not in planners:
+        planners[cap] = MultichainPolicyIteration(max_iterations=cap)
+    return planners[cap]
+
+
+def run_plan(b, cap, planner=None, set_discount=None):
+    """plan_on with the given planner object; set_discount: change mdp.discount_rate in place first."""
     mdp = b.mdp
+    if planner is None:
+        planner = get_planner(None, cap)
     sl, al = list(mdp.state_list), list(mdp.action_list)
     try:
+        if set_discount is not None:
+            mdp.discount_rate = set_discount
         with warnings.catch_warnings():
             warnings.simplefilter("ignore")
             with np.errstate(all="ignore"):
-                r = MultichainPolicyIteration(max_iterations=cap).plan_on(mdp)
+                r = planner.plan_on(mdp)
         pol = []
         for s in sl:
             pol.append([float(r.policy[s][a]) for a in al])
@@ -402,14 +480,14 @@ def run_plan(b, cap):
         return {"error": type(e).__name__, "msg": str(e)[:200]}
 
 
-def run_fn(b, rule, cap):
+def run_fn(b, rule, cap, discount):
     from msdm.algorithms.multichainpolicyiteration import multichain_policy_iteration_vectorized
     try:
         with warnings.catch_warnings():
             warnings.simplefilter("ignore")
             with np.errstate(all="ignore"):
                 gain, gq, bias, bq, pol, i = multichain_policy_iteration_vectorized(
-                    max_iterations=cap, policy=np.array([a - 1 for a in rule]), **_arrays(b.mdp))
+                    max_iterations=cap, policy=np.array([a - 1 for a in rule]), **_arrays(b.mdp, discount))
         return {"its": int(i), "conv": bool(i < cap - 1), "gain": _fl(gain), "val": _fl(bias),
                 "gq": [_fl(x) for x in gq], "bq": [_fl(x) for x in bq], "pol": [int(a) + 1 for a in pol]}
     except Exception as e:                           # noqa: BLE001
@@ -516,8 +594,16 @@ def machine_explains(mrec, o, plan, rd=1):
 # judging a chunk of cases
 # --------------------------------------------------------------------------------------------
 def judge_cases(ctx, cases, *, tamper_build=None, tamper_real=None, steps=True):
-    preps = [prepare(c, tamper_build if (tamper_build and k == 0) else None) for k, c in enumerate(cases)]
-    batch = [mp for _, mp in preps]
+    # units: one per plan_on call; a call-history case contributes a second unit (same msdm object, same planner
+    # object, mdp.discount_rate changed in place) whose TLC record is the same instance under the new discount
+    units = []
+    for k, c in enumerate(cases):
+        b, mp = prepare(c, tamper_build if (tamper_build and k == 0) else None)
+        units.append((c, b, mp, None))
+        if c.get("sweep"):
+            units.append((c, b, dict(mp, GN=c["sweep"][0], GD=c["sweep"][1]), "sweep"))
+    batch = [mp for _, _, mp, _ in units]
+    planners = {}
     res = run_tlc(ctx.workdir / "mc", MODULE, CFG_MC, files={"batch.json": batch},
                   env={"BATCH_FILE": "batch.json", "MODE": "mc"})     # (TLC's -coverage runs out of memory on this module;
     #                                                                     per-action counts are taken from the emitted behaviours)
@@ -547,13 +633,13 @@ def judge_cases(ctx, cases, *, tamper_build=None, tamper_real=None, steps=True):
             cov["BiasImprove:stop"] += 1 if r["phase"] == "done" else 0
             cov["cut:" + r["phase"]] = cov.get("cut:" + r["phase"], 0) + (1 if r["phase"] != "done" else 0)
     judge_batch, pending = [], []
-    for i, (c, (b, mp)) in enumerate(zip(cases, preps), start=1):
+    for i, (c, b, mp, role) in enumerate(units, start=1):
         orc = orcs.get(i)
         if orc is None:
             raise TLCFailure(f"no oracle record for case {i}")
-        rd = orc["rd"]
-        if rd != mp["RD"]:
-            raise TLCFailure(f"reward denominator of case {i}: spec {rd}, harness {mp['RD']}")
+        rd = F(orc["rd"], orc["rm"])                      # real quantity = TLC quantity / rd  (= * RM / RD)
+        if (orc["rd"], orc["rm"]) != (mp["RD"], mp["RM"]):
+            raise TLCFailure(f"reward scaling of case {i}: spec {orc['rd']}/{orc['rm']}, harness {mp['RD']}/{mp['RM']}")
         raw = [frac(x) for x in orc["v"]]                 # in units of 1/rd, as TLC and the Python oracles compute
         exact = [x / rd for x in raw]
         # ---- machinery cross-checks of the TLA+ oracle
@@ -572,18 +658,21 @@ def judge_cases(ctx, cases, *, tamper_build=None, tamper_real=None, steps=True):
                 ctx.count("oracle_crosschecks_multichain_lp")
         # ---- real executions
         default = [min(j + 1 for j in range(mp["K"]) if mp["avail"][s][j]) for s in range(mp["N"])]
-        outs = {"plan": run_plan(b, mp["CAP"])}
+        # every plan_on of a chunk goes through one planner object per max_iterations (reuse across MDP objects);
+        # the second unit of a call-history case first changes mdp.discount_rate in place
+        outs = {"plan": run_plan(b, mp["CAP"], planner=get_planner(planners, mp["CAP"]),
+                                 set_discount=gamma_of(mp) if role == "sweep" else None)}
         ctx.evaluations += 1
         myruns = runs.get(i, {})
         if tuple(default) not in myruns:
             raise TLCFailure(f"no machine record for the default rule of case {i}")
         for p0 in myruns:
-            outs[p0] = run_fn(b, list(p0), mp["CAP"])
+            outs[p0] = run_fn(b, list(p0), mp["CAP"], gamma_of(mp))
             ctx.evaluations += 1
         if tamper_real is not None:
             tamper_real(i, outs, mp, orc)
         # ---- judge batch: policies returned by converged runs
-        base = {k: mp[k] for k in ("N", "K", "PD", "GN", "GD", "ID", "RD", "abs", "avail", "P", "R", "p0")}
+        base = {k: mp[k] for k in ("N", "K", "PD", "GN", "GD", "ID", "RD", "RM", "abs", "avail", "P", "R", "p0")}
         for key, o in outs.items():
             if "error" in o or not o["conv"]:
                 continue
@@ -611,7 +700,7 @@ def judge_cases(ctx, cases, *, tamper_build=None, tamper_real=None, steps=True):
                 rows = [[1 if o["pol"][s] == a + 1 else 0 for a in range(mp["K"])] for s in range(mp["N"])]
                 if all(1 <= o["pol"][s] <= mp["K"] for s in range(mp["N"])):
                     judge_batch.append(dict(base, w=rows, exp=orc["v"], tag=f"{i}:{','.join(map(str, key))}"))
-        pending.append((i, c, b, mp, orc, exact, myruns, outs))
+        pending.append((i, c, b, mp, role, orc, exact, myruns, outs))
     jby = {}
     if judge_batch:
         jres = run_tlc(ctx.workdir / "judge", MODULE, CFG_JUDGE, files={"batch.json": judge_batch},
@@ -635,11 +724,13 @@ def judge_cases(ctx, cases, *, tamper_build=None, tamper_real=None, steps=True):
         judge_one(ctx, jby, steps, *item)
 
 
-def judge_one(ctx, jby, steps, i, c, b, mp, orc, exact, myruns, outs):
+def judge_one(ctx, jby, steps, i, c, b, mp, role, orc, exact, myruns, outs):
     N, K = mp["N"], mp["K"]
-    rd = orc["rd"]
+    rd = F(orc["rd"], orc["rm"])
     disc = orc["disc"]
-    shape = shape_of(orc, mp) + ("+near-tie-rewards" if c.get("tie") else "")
+    shape = shape_of(orc, mp) + ("+near-tie-rewards" if c.get("tie") else "") + ("+large-rewards" if mp["RM"] != 1 else "")
+    if role == "sweep":
+        ctx.count("call_history:second_plan_on_after_discount_rate_changed_in_place")
     default = tuple(min(j + 1 for j in range(K) if mp["avail"][s][j]) for s in range(N))
     case_ok = True
     any_conv = False
@@ -654,13 +745,15 @@ def judge_one(ctx, jby, steps, i, c, b, mp, orc, exact, myruns, outs):
         mrec = mrecs[k_ok]                    # the behaviour that explains the run (else the first one)
         predicts_unbound = any(r["phase"] == "cap" and not r["bqdef"] for r in mrecs)
         site = "MultichainPolicyIteration.plan_on" if plan else "multichain_policy_iteration_vectorized[policy=given]"
+        if plan and role == "sweep":
+            site += "[2nd call, same planner and MDP objects, discount_rate changed in place]"
         tag = f"{i}:plan" if plan else f"{i}:{','.join(map(str, key))}"
 
         def fail(clause, what, extra=None):
             nonlocal case_ok
             case_ok = False
             ctx.violation(f"C16:{site}:{clause}:{shape}", f"{site} {clause} ({shape}): {what}",
-                          {"case": c, "run": "plan" if plan else list(key), "clause": clause, "extra": extra})
+                          {"case": c, "unit": role or "first", "run": "plan" if plan else list(key), "clause": clause, "extra": extra})
 
         ctx.count(f"machine_phase:{mrec['phase']}")
         if len(mrecs) > 1:
@@ -766,7 +859,7 @@ def judge_one(ctx, jby, steps, i, c, b, mp, orc, exact, myruns, outs):
                     elif mrec["phase"] == "done":
                         stops[tuple(ent["pol"])] = mrec
         for frm in list(succ) + [p for p in stops if p not in succ]:
-            o = run_fn(b, list(frm), 1)
+            o = run_fn(b, list(frm), 1, gamma_of(mp))
             ctx.evaluations += 1
             if frm in stops:
                 mrec = stops[frm]
@@ -791,7 +884,7 @@ def judge_one(ctx, jby, steps, i, c, b, mp, orc, exact, myruns, outs):
     n_na = sum(1 for x in mp["abs"] if not x)
     if any_conv and n_na >= 2 and orc["nvals"] >= 2:
         ctx.nontrivial(digest({"m": mp, "rep": c["rep"]}))
-    ctx.sample({"instance_in_planner_order": {k: mp[k] for k in ("N", "K", "PD", "GN", "GD", "RD", "abs", "avail", "P", "R", "p0", "CAP")},
+    ctx.sample({"instance_in_planner_order": {k: mp[k] for k in ("N", "K", "PD", "GN", "GD", "RD", "RM", "abs", "avail", "P", "R", "p0", "CAP")},
                 "rep": c["rep"], "shape": shape, "optimum": [str(x) for x in exact],
                 "plan_on": {k: outs["plan"].get(k) for k in ("its", "conv", "gain", "val", "error")}})
 
@@ -805,7 +898,11 @@ def run(ctx):
                 "(unichain / multichain, with / without absorbing states), PD in {2,4}) x max_iterations in {1..4, 80} x "
                 "representation x initial decision rule; every 4th case from the near-tie reward family (rewards over RD = 2500, two "
                 "actions of one state 4e-4 or 8e-4 apart in the bias step (discount 1/2, 3/4, 1) or in the gain step, runs started "
-                "on the slightly worse action); non-trivial = converged run on an instance with >=2 non-absorbing "
+                "on the slightly worse action); every 8th case from the large-magnitude family (reward multiplier RM = 900, mostly "
+                "costs, some non-absorbing state lacking an action; half of them built around an initial state that lacks an action and "
+                "whose available actions lead into a closed set costing 900-2700 per step); 30% of the regular cases are call histories (same planner and "
+                "MDP objects, mdp.discount_rate changed in place to another of {1/2,3/4,1}, second result judged like a fresh one); "
+                "one planner object per max_iterations is reused across all MDP objects of a chunk; non-trivial = converged run on an instance with >=2 non-absorbing "
                 "listed states on which at least two deterministic policies have different exact value (gain) vectors")
     ctx.assumptions = [
         "TLC evaluates the TLA+ oracles correctly (cross-checked on every 3rd case against exact Gaussian elimination of the "
